@@ -53,6 +53,17 @@ def run(R, job):
         else:
             if type(v) is not str or v != "".join(leaves):
                 fails.append({"input": desc, "observed": repr(v), "expected": "plain str concatenation"})
+        class Obj:
+            def __init__(self, t): self.t = t
+            def __str__(self): return self.t
+        for other in (ValueError(m), Obj(m), 12, 2.5, None, [m]):
+            checked += 2
+            a_ = HTML("<i>") + other
+            b_ = other + HTML("<i>") if not isinstance(other, list) else None
+            if not isinstance(a_, HTML) or a_.data != "<i>" + ocommon.esc(str(other)):
+                fails.append({"input": f"HTML('<i>') + {other!r}", "observed": repr(a_), "expected": "HTML('<i>' + escaped str(other))"})
+            if b_ is not None and (not isinstance(b_, HTML) or b_.data != ocommon.esc(str(other)) + "<i>"):
+                fails.append({"input": f"{other!r} + HTML('<i>')", "observed": repr(b_), "expected": "HTML(escaped str(other) + '<i>')"})
         x = HTML("a"); x += m; y = m; y += HTML("a")
         checked += 2
         if not isinstance(x, HTML) or x.data != "a" + ocommon.esc(m) or not isinstance(y, HTML) or y.data != ocommon.esc(m) + "a":
